@@ -27,16 +27,16 @@ HARNESSES_LH1 = [
     dict(name="lh1.code.n%d" % n, src="C09/lh1.c", entry="harness_code", defines=sc(n, lim) + ["BITS_ANY", "TREE_HARNESS", "STUB_REBUILD"],
          rename_defs=rn({"lib/lh1_decoder.c": ["reconstruct_tree"]}), mode="safety", unwind=2 * n + 1, unwindset=rt_unwind(n),
          units=["lib/lh1_decoder.c:read_code,increment_for_code,make_group_leader,increment_node_freq,alloc_group,free_group"],
-         timeout=300, mem_gb=4, tier=tier,
+         timeout=300 if n < 6 else 1800, mem_gb=4, tier=tier,
          bounds="NUM_CODES=%d (scaled), limit %d; arbitrary invariant-satisfying tree/group state with root count < limit; arbitrary bits / end of data" % (n, lim),
          stubs=[BITSTUB, "reconstruct_tree: asserts it is not called (root count < limit); its own harness is lh1.rebuild.*"])
     for n, lim, tier in [(3, 16, "both"), (4, 32, "both"), (6, 64, "thorough")]
 ] + [
     dict(name="lh1.rebuild.n%d" % n, src="C09/lh1.c", entry="harness_rebuild", defines=sc(n, lim) + ["BITS_ANY", "TREE_HARNESS"],
          rename_defs=BITS, mode="safety", unwind=2 * n + 1, unwindset=rt_unwind(n),
-         units=["lib/lh1_decoder.c:reconstruct_tree,init_groups,alloc_group"], timeout=500, mem_gb=4, tier=tier, flags=["--slice-formula"],
+         units=["lib/lh1_decoder.c:reconstruct_tree,init_groups,alloc_group"], timeout=500 if n < 5 else 1800, mem_gb=4 if n < 5 else 6, tier=tier, flags=["--slice-formula"],
          bounds="NUM_CODES=%d (scaled); arbitrary state with exactly NUM_CODES leaf entries carrying symbols < NUM_CODES (counts, links, groups arbitrary - weaker than the invariant)" % n, stubs=[])
-    for n, lim, tier in [(3, 16, "both"), (4, 32, "both"), (6, 64, "thorough")]
+    for n, lim, tier in [(3, 16, "both"), (4, 32, "both"), (5, 48, "thorough")]
 ] + [
     dict(name="lh1.atlimit.n%d" % n, src="C09/lh1.c", entry="harness_atlimit", defines=sc(n, lim) + ["BITS_ANY", "TREE_HARNESS"],
          rename_defs=BITS, mode="safety", unwind=2 * n + 1, unwindset=rt_unwind(n),
